@@ -25,6 +25,9 @@ pub enum Op {
     Fp,
     IntoOwned,
     Clone,
+    /// `Clone::clone_from` into another builder (alternately one holding more attributes than this
+    /// one, sealed, and an empty one); the destination replaces the builder
+    CloneFrom,
 }
 
 impl Op {
@@ -39,6 +42,7 @@ impl Op {
             Op::Fp => "fp".into(),
             Op::IntoOwned => "into_owned".into(),
             Op::Clone => "clone".into(),
+            Op::CloneFrom => "clone_from".into(),
         }
     }
     fn from_name(s: &str) -> Option<Op> {
@@ -50,6 +54,7 @@ impl Op {
             "fp" => Op::Fp,
             "into_owned" => Op::IntoOwned,
             "clone" => Op::Clone,
+            "clone_from" => Op::CloneFrom,
             s if s.starts_with("typed") => Op::Typed(s[5..].parse().ok()?),
             s if s.starts_with("raw") => Op::Raw(s[3..].parse().ok()?),
             _ => return None,
@@ -126,7 +131,8 @@ pub fn check_ops(ctx: &mut Ctx, ops: &[Op], creds: &RefCreds) {
 
 /// `start` selects how the builder comes into being: 0 = `Message::builder`, 1 = `builder_success`,
 /// 2 = `builder_error`, 3 = `bad_request`, 4 = `unknown_attributes` (the canned responses arrive with
-/// attributes already in them; the rules and the queries apply to those just the same).
+/// attributes already in them; the rules and the queries apply to those just the same), 5 / 6 / 7 =
+/// `Message::builder` of class indication / success / error.
 pub fn check_ops_from(ctx: &mut Ctx, start: u8, ops: &[Op], creds: &RefCreds) {
     ctx.eval();
     let tpool = typed_pool();
@@ -159,6 +165,8 @@ pub fn check_ops_from(ctx: &mut Ctx, start: u8, ops: &[Op], creds: &RefCreds) {
         let p = Program { class: 0, method: 1, tid, attrs: vec![], seals: vec![], creds: creds.clone() };
         let mut b: MessageBuilder = match start {
             0 => new_builder(&p),
+            // plain builders of the other three classes
+            5..=7 => new_builder(&Program { class: start - 4, ..p.clone() }),
             1 => Message::builder_success(&req),
             2 => Message::builder_error(&req),
             3 => Message::bad_request(&req),
@@ -204,7 +212,7 @@ pub fn check_ops_from(ctx: &mut Ctx, start: u8, ops: &[Op], creds: &RefCreds) {
                 Op::Sha1 => (!model.sealed(), "add_message_integrity(Sha1)".into()),
                 Op::Sha256 | Op::Sha256Other => (!model.has(MI256) && !model.has(FP), "add_message_integrity(Sha256)".into()),
                 Op::Fp => (!model.has(FP), "add_fingerprint".into()),
-                Op::IntoOwned | Op::Clone => (true, op.name()),
+                Op::IntoOwned | Op::Clone | Op::CloneFrom => (true, op.name()),
             };
             let got: Result<(), StunWriteError> = match op {
                 Op::Typed(i) => {
@@ -241,6 +249,22 @@ pub fn check_ops_from(ctx: &mut Ctx, start: u8, ops: &[Op], creds: &RefCreds) {
                 Op::Clone => {
                     let c = b.clone();
                     b = c;
+                    Ok(())
+                }
+                Op::CloneFrom => {
+                    let mut dst = Message::builder(
+                        stun_types::message::MessageType::from_class_method(stun_types::message::MessageClass::Error, 0x7),
+                        imp::tid_from_bytes(&[0x99; 12]),
+                    );
+                    if step % 2 == 0 {
+                        for j in 0..(model.types.len() + 3) {
+                            let _ = dst.add_raw_attribute(RawAttribute::new(AttributeType::new(0x6e00 + j as u16), &vec![j as u8; j % 5]).into_owned());
+                        }
+                        let _ = dst.add_message_integrity(&icreds_other, IntegrityAlgorithm::Sha1);
+                        let _ = dst.add_fingerprint();
+                    }
+                    dst.clone_from(&b);
+                    b = dst;
                     Ok(())
                 }
             };
@@ -285,7 +309,7 @@ pub fn check_ops_from(ctx: &mut Ctx, start: u8, ops: &[Op], creds: &RefCreds) {
                     ));
                     break;
                 }
-            } else if matches!(op, Op::IntoOwned | Op::Clone) && after.bytes != before.bytes {
+            } else if matches!(op, Op::IntoOwned | Op::Clone | Op::CloneFrom) && after.bytes != before.bytes {
                 problems.push((
                     "copy-preserves-serialisation".into(),
                     op.name(),
@@ -578,6 +602,64 @@ pub fn run(ctx: &mut Ctx) {
             }
         }
     }
+    // ---- every class x short-term and long-term credentials: all sequences up to length 3 ----
+    {
+        let lt = RefCreds::Long("us:er".into(), "realm.example".into(), "long-term".into());
+        for start in [0u8, 5, 6, 7, 1, 2] {
+            for cr in [&creds, &lt] {
+                if start == 0 && std::ptr::eq(cr, &creds) {
+                    continue; // enumerated above, deeper
+                }
+                for len in 0..=3usize {
+                    let total = (alpha.len() as u64).pow(len as u32);
+                    for code in 0..total {
+                        idx += 1;
+                        if !ctx.mine(idx) {
+                            continue;
+                        }
+                        let mut c = code;
+                        let ops: Vec<Op> = (0..len)
+                            .map(|_| {
+                                let o = alpha[(c % alpha.len() as u64) as usize];
+                                c /= alpha.len() as u64;
+                                o
+                            })
+                            .collect();
+                        check_ops_from(ctx, start, &ops, cr);
+                        ctx.count("class-and-credential-sequences");
+                    }
+                }
+            }
+        }
+    }
+    // ---- clone_from into longer / sealed / empty builders: every sequence up to length 4 over the
+    //      alphabet plus clone_from that uses it at least once ----
+    {
+        let mut alpha2 = alpha.clone();
+        alpha2.push(Op::CloneFrom);
+        for len in 1..=4usize {
+            let total = (alpha2.len() as u64).pow(len as u32);
+            for code in 0..total {
+                let mut c = code;
+                let ops: Vec<Op> = (0..len)
+                    .map(|_| {
+                        let o = alpha2[(c % alpha2.len() as u64) as usize];
+                        c /= alpha2.len() as u64;
+                        o
+                    })
+                    .collect();
+                if !ops.contains(&Op::CloneFrom) {
+                    continue;
+                }
+                idx += 1;
+                if !ctx.mine(idx) {
+                    continue;
+                }
+                check_ops(ctx, &ops, &creds);
+                ctx.count("clone-from-sequences");
+            }
+        }
+    }
     // ---- random longer sequences (SmallVec spill beyond 16 types) ----
     let n = ctx.n(60_000, 600_000);
     let mut rng = ctx.rng("random-ops", 0);
@@ -600,7 +682,13 @@ pub fn run(ctx: &mut Ctx) {
                 }
                 17 => Op::Fp,
                 18 => Op::IntoOwned,
-                _ => Op::Clone,
+                _ => {
+                    if rng.chance(1, 3) {
+                        Op::CloneFrom
+                    } else {
+                        Op::Clone
+                    }
+                }
             });
         }
         // keep the seals towards the end so that long unsealed prefixes exist
@@ -612,7 +700,7 @@ pub fn run(ctx: &mut Ctx) {
             a.extend(tail);
             ops = a;
         }
-        check_ops(ctx, &ops, &lt);
+        check_ops_from(ctx, *rng.pick(&[0u8, 0, 0, 5, 6, 7, 1, 2, 3, 4]), &ops, &lt);
         ctx.count("random-sequences");
         if i < 2 {
             ctx.sample("random", || wit(&ops, &lt));
@@ -625,6 +713,8 @@ pub fn run(ctx: &mut Ctx) {
     ctx.require("final-state-parsed", 10_000);
     ctx.require("final-state-validated", 5_000);
     ctx.require("random-sequences", 1_000);
+    ctx.require("class-and-credential-sequences", 10_000);
+    ctx.require("clone-from-sequences", 5_000);
 }
 
 pub fn replay(ctx: &mut Ctx, w: &Value) -> Result<(), String> {
